@@ -3,6 +3,10 @@
 
 package encode
 
+import "encoding/binary"
+
+func vBigEndian() binary.ByteOrder { return binary.BigEndian }
+
 // C15 — value encoders round-trip every value with consistent sizes and LE layout.
 // L1 lemmas: every argument symbolic over its full machine range.
 
@@ -10,6 +14,85 @@ func init() {
 	vRegister("k_enc_int", H_k_enc_int)
 	vRegister("k_enc_str", H_k_enc_str)
 	vRegister("k_enc_bytes", H_k_enc_bytes)
+	vRegister("k_enc_type", H_k_enc_type)
+}
+
+type vPad struct {
+	A uint8
+	B uint32
+}
+
+type vNest struct {
+	X [3]uint16
+	P vPad
+	Y int64
+	Z uint8
+}
+
+// TypeEncoder wrapper logic (the byte layout itself is encoding/binary's: modelled, see
+// DESIGN §7 C15): the four sizes agree with len(Encode(v)), the round trip returns v also
+// with trailing bytes, for scalars, arrays and structs with alignment padding, both byte orders.
+func H_k_enc_type() {
+	typ := vParam("type")
+	big := vParam("big") == 1
+	njunk := vParam("junk")
+	var zero, v interface{}
+	packed := 0
+	switch typ {
+	case 0:
+		x := vI32("v")
+		zero, v, packed = int32(0), x, 4
+	case 1:
+		x := vU64("v")
+		zero, v, packed = uint64(0), x, 8
+	case 2:
+		x := [3]uint16{vU16("v"), vU16("v"), vU16("v")}
+		zero, v, packed = [3]uint16{}, x, 6
+	case 3:
+		x := vPad{A: vU8("v"), B: vU32("v")}
+		zero, v, packed = vPad{}, x, 5
+	default:
+		x := vNest{X: [3]uint16{vU16("v"), vU16("v"), vU16("v")}, P: vPad{A: vU8("v"), B: vU32("v")}, Y: vI64("v"), Z: vU8("v")}
+		zero, v, packed = vNest{}, x, 6+5+8+1
+	}
+	var e *TypeEncoder
+	var err error
+	if big {
+		e, err = NewTypeEncoderEndian(zero, vBigEndian())
+	} else {
+		e, err = NewTypeEncoder(zero)
+	}
+	vAssert(err == nil && e != nil, "type.new")
+	if err != nil {
+		return
+	}
+	enc := e.Encode(v)
+	vAssert(len(enc) == packed, "type.sizes.len")
+	vAssert(e.GetSize(v) == len(enc), "type.sizes.getsize")
+	buf := append(append([]byte{}, enc...), vBytes("junk", njunk)...)
+	vAssert(e.GetEncodedSize(buf) == len(enc), "type.sizes.encodedsize")
+	n, d := e.Decode(buf)
+	vAssert(n == len(enc), "type.roundtrip.consumed")
+	same := false
+	switch typ {
+	case 0:
+		same = d.(int32) == v.(int32)
+	case 1:
+		same = d.(uint64) == v.(uint64)
+	case 2:
+		same = d.([3]uint16) == v.([3]uint16)
+	case 3:
+		same = d.(vPad) == v.(vPad)
+	default:
+		same = d.(vNest) == v.(vNest)
+	}
+	vAssert(same, "type.roundtrip.value")
+	// two values packed back to back are found at offsets 0 and GetEncodedSize
+	two := append(append([]byte{}, enc...), enc...)
+	off := e.GetEncodedSize(two)
+	vAssert(off <= len(two) && len(two)-off == len(enc), "type.second-element-offset")
+	vObserve("enc", enc)
+	vReach("end")
 }
 
 // vEncCase builds (encoder, value as interface, value as uint64 bit pattern, width in bytes).
